@@ -79,6 +79,21 @@ func eval(t vk.TB, c splitk.Case, constructed bool) {
 		rec.Eval()
 		rec.ReportSeq(t, "batchsplit", c, func() *vk.Violation { return batchContent(c) })
 	}
+	// the same text and coding number through the OTHER protocol's entry point right afterwards, then this one again
+	if len(r.Parts) >= 2 {
+		tw := splitk.Twin(c)
+		rec.Eval()
+		rec.Class("same_text_other_protocol_right_after")
+		v := splitk.Content(tw, splitk.Run(tw))
+		if v == nil {
+			v = splitk.Content(c, splitk.Run(c))
+		}
+		if v != nil {
+			v.Key = "after-same-text-other-protocol/" + v.Key
+			v.Case = vk.SeqCase{Kind: "split", First: c, Then: tw}
+			rec.Report(t, "sequence", v)
+		}
+	}
 }
 
 func batchContent(c splitk.Case) *vk.Violation {
